@@ -61,6 +61,10 @@ package transform
 //@   props C14
 //@   safety C16
 //@   requires a != nil
+//@   modifies rec_tagsGet
+//@   loop 0:
+//@     iter_ensures C14_the_alias_tag_is_consulted_whether_or_not_the_primary_tag_is_present: rec_tagsGet_cnt == old(rec_tagsGet_cnt) + 2
+//@          && rec_tagsGet_arg1[old(rec_tagsGet_cnt) + 1] == scat(tag, "alias")
 //@   loop 1:
 //@     invariant fresh(setAliases.arr)
 //@   ensures C14_one_or_two_fields: err == nil ==> len(out) == 1 || len(out) == 2
